@@ -43,6 +43,13 @@ func main() {
 		os.Exit(cmdReplay(os.Args[2:]))
 	case "effects":
 		os.Exit(cmdEffects(os.Args[2:]))
+	case "bounded":
+		e := load()
+		rs := e.labelRun([]int{4, 6, 8, 10, 12})
+		rs = append(rs, e.diffRun([]int{4, 6}, 1)...)
+		for _, r := range rs {
+			fmt.Printf("%+v\n", r)
+		}
 	default:
 		usage()
 	}
